@@ -1,5 +1,6 @@
 import QtVerif.Proofs.SequencePlay
 import QtVerif.Proofs.SequenceOps
+import QtVerif.Proofs.SequenceInFlight
 /-!
 C19 — Sequences write the given values in order, with the given delays and repeats.
 
@@ -46,18 +47,30 @@ theorem finished_after_last_value (t0 : Nat) (vs : List Val) (ds : List Int) (r 
     (iterN Fix.repaired k (St.installed t0 vs ds r)).ready = [] :=
   finished_means_flushed t0 vs ds r hne hlen k h
 
-/-- Not proved in Lean (checked on every run by the oracle "no value of the old sequence is submitted after the stopping
-call has returned" and by the correspondence): the same fact for *every* reachable state with operations in the
-queues — a value in flight always belongs to the sequence the port currently reports, so that when a stopping call
-returns nothing of the old sequence is in flight. It needs a FIFO-order invariant (every fire-and-forget handle of a
-sequence precedes that sequence's next loop step; at most one pending activation per loop task) that
-`cancel_is_immediate` does without: that theorem gives "no further callback, in-flight values land in the same instant"
-for all states. -/
-def inFlightBelongsToReportedSequenceFull : Prop :=
-  ∀ (p : Port) (cap maxItems : Nat) (timers : List Timer) (n : Nat),
-    (∀ t ∈ timers, ∃ k o op, t.h = .hop k o op) →
-    let s := iterN Fix.repaired n (timers.foldl (fun s t => s.addTimer t.time t.rank t.h) (St.init p cap maxItems))
-    s.overlap = false → ∀ sid v, Handle.ff sid v ∈ s.ready → ∃ q, s.port.seq = some q ∧ q.id = sid
+/-- **A value in flight always belongs to the sequence the port reports** — with operations queued, for every state
+reachable from the start of a case (any port without a sequence, any calls of the harness and the end of the window in
+the timers) by any number of event-loop iterations, for the repaired `_loop` and either variant of `cancel`: every
+fire-and-forget submission still in the ready queue is a value of the sequence that `port.seq` holds at that moment.
+So once a stopping call has completed (the port reports no sequence, or the new one) nothing of the old sequence is in
+flight, and by `cancel_is_immediate` nothing of it is ever submitted: no value is submitted after the stopping call has
+returned. (Inductive invariant `Fl.G` through every handle of every iteration: in-flight values belong to the live task
+of the reported sequence and precede its next loop step, one pending activation per task, fresh identifiers, one
+operation inside its cancellation at a time. The driver evaluates the same predicate on every intermediate state of
+every case.) The code as found fails it: `unrepaired_value_after_disable`. -/
+theorem in_flight_belongs_to_reported_sequence (fix : Fix) (hfl : fix.flushLast = true) (p : Port)
+    (cap maxItems : Nat) (timers : List Timer) (n : Nat) (hp : p.seq = none)
+    (ht : ∀ t ∈ timers, Fl.startHandle t.h) :
+    let s := iterN fix n (timers.foldl (fun s t => s.addTimer t.time t.rank t.h) (St.init p cap maxItems))
+    ∀ sid v, Handle.ff sid v ∈ s.ready → ∃ q, s.port.seq = some q ∧ q.id = sid :=
+  in_flight_belongs fix hfl p cap maxItems timers n hp ht
+
+example : Fix.repaired.flushLast = true ∧ Port.default.seq = none ∧
+    (∀ t ∈ [(⟨0, 1, .hop 0 0 (.patchSeq [.num 2] [0] 0)⟩ : Timer), ⟨5, -1, .hop 1 1 (.setEnabled false)⟩, ⟨9, 2, .stop⟩],
+      Fl.startHandle t.h) := by
+  refine ⟨rfl, rfl, ?_⟩
+  intro t ht
+  simp at ht
+  rcases ht with rfl | rfl | rfl <;> trivial
 
 /-- **repeat = 0: indefinitely.** (Also for negative repeat counts, which the request schema does not exclude.) The
 sequence stays active for ever, what has been submitted is at every moment a prefix of the infinite periodic schedule,
